@@ -247,13 +247,22 @@ func runC25(c *c25Case, slot int, cov func(string)) (fail *stepFail, err error) 
 					return bad(i, op, "error", "SetBulkAttrs: %v", err), nil
 				}
 			}
-			for s := 1; s <= c.nstores(); s++ {
+			for s := 1; s <= c.nstores() && st.Str("mode") != "warm"; s++ {
 				if err := tg.Reopen(s); err != nil {
 					return bad(i, op, "error", "reopen: %v", err), nil
 				}
 				if _, isq := tg.(*queryTarget); isq {
 					break // one server restart reopens every store
 				}
+			}
+		case "BulkQuery":
+			var calls []attrCall
+			for _, e := range behav.ToList(st["calls"]) {
+				l := behav.ToList(e)
+				calls = append(calls, attrCall{ID: uint64(behav.ToInt(l[0])), Attrs: updMap(c.Profile, pairList(l[1]), c.Variant+i)})
+			}
+			if err := tg.BulkQuery(s, calls); err != nil {
+				return bad(i, op, "error", "BulkQuery(%v): %v", st["calls"], err), nil
 			}
 		case "SetAttrs":
 			if err := tg.Set(s, uint64(st.Int("id")), updMap(c.Profile, pairList(st["upd"]), c.Variant+i)); err != nil {
@@ -421,7 +430,7 @@ func runC25(c *c25Case, slot int, cov func(string)) (fail *stepFail, err error) 
 					}
 				}
 				if pass == 0 {
-					if behav.Hash64(c.Tag+c.Profile)%2 == 0 && c.Corrupt == 0 {
+					if (behav.Hash64(c.Tag+c.Profile)%2 == 0 || os.Getenv("VERIF_NOREOPEN") != "") && c.Corrupt == 0 {
 						break // the reopen pass is taken by half of the cases (it costs two fsyncs per store)
 					}
 					for s := 1; s <= c.nstores(); s++ {
@@ -568,7 +577,7 @@ func TestC25(t *testing.T) {
 		res.Cover("profile_" + c.Profile)
 		nontrivial := false
 		for _, st := range c.Beh {
-			if op := st.Str("op"); op == "SetAttrs" || op == "SetBulkAttrs" {
+			if op := st.Str("op"); op == "SetAttrs" || op == "SetBulkAttrs" || op == "BulkQuery" {
 				nontrivial = true
 			}
 		}
